@@ -75,7 +75,8 @@ def gen(ctx, path):
 
 # the universe of the other RGB standards and white points (harness binaries convstd64/convstd32)
 STD_GROUPS = {"srgb": ["xyz", "lab", "srgb", "linsrgb", "adobe", "linadobe", "p3", "linp3", "rec2020", "linrec2020", "rec709", "hsv_adobe",
-                       "hsl_p3", "hwb_rec2020", "hsv", "hsl", "hwb"],      # each hexcone form in two RGB standards
+                       "hsl_p3", "hwb_rec2020", "hsv", "hsl", "hwb",      # each hexcone form in two RGB standards ...
+                       "hsv_linsrgb", "hsl_linsrgb", "hwb_rec709"],         # ... and in two standards that share their primaries
               "prophoto": ["xyz50", "lab50", "lch50", "luv50", "prophoto", "linprophoto", "hsv_prophoto"],
               "dcip3": ["xyzdci", "labdci", "dcip3", "lindcip3"]}
 
